@@ -60,10 +60,15 @@ struct Ctl {
     n: Cell<usize>,
     fail_at: usize,
     last_err: Cell<u64>,
+    /// what `is_human_readable()` answers
+    hr: bool,
 }
 impl Ctl {
     fn new(fail_at: usize) -> Ctl {
-        unrecorded(|| Ctl { log: RefCell::new(Vec::with_capacity(64)), n: Cell::new(0), fail_at, last_err: Cell::new(0) })
+        Ctl::new_hr(fail_at, true)
+    }
+    fn new_hr(fail_at: usize, hr: bool) -> Ctl {
+        unrecorded(|| Ctl { log: RefCell::new(Vec::with_capacity(64)), n: Cell::new(0), fail_at, last_err: Cell::new(0), hr })
     }
     /// one callback: logged, counted, failing if it is the `fail_at`-th
     fn call(&self, c: impl FnOnce() -> String) -> Result<(), E> {
@@ -137,6 +142,10 @@ impl<'a> Serializer for S<'a> {
     type SerializeMap = Comp<'a>;
     type SerializeStruct = Comp<'a>;
     type SerializeStructVariant = Comp<'a>;
+
+    fn is_human_readable(&self) -> bool {
+        self.0.hr
+    }
 
     prim! {
         serialize_bool(bool) => "bool"; serialize_i8(i8) => "i8"; serialize_i16(i16) => "i16";
@@ -343,6 +352,9 @@ macro_rules! de_prim {
 
 impl<'de, 'a> Deserializer<'de> for D<'a> {
     type Error = E;
+    fn is_human_readable(&self) -> bool {
+        self.ctl.hr
+    }
     de_prim! {
         deserialize_any => "de_any"; deserialize_bool => "de_bool";
         deserialize_i8 => "de_i8"; deserialize_i16 => "de_i16"; deserialize_i32 => "de_i32"; deserialize_i64 => "de_i64";
@@ -481,19 +493,33 @@ impl<'de> Deserialize<'de> for Outer {
 // ------------------------------------------------------------------------------------------------
 // the two experiments
 
-fn ser_one<T: Serialize + ?Sized>(v: &T, k: usize) -> String {
-    let c = Ctl::new(k);
+/// (result+log, the error is the machine's own object)
+fn ser_one<T: Serialize + ?Sized>(v: &T, k: usize, hr: bool) -> (String, Option<bool>) {
+    let c = Ctl::new_hr(k, hr);
     let r = v.serialize(S(&c));
-    let extra = if r.is_err() { format!("{{passthrough={}}}", c.passthrough(&r)) } else { "{}".to_string() };
-    format!("{}{}", c.show(&r), extra)
+    (c.show(&r), if r.is_err() { Some(c.passthrough(&r)) } else { None })
+}
+
+/// `nhr_same`: with a serializer that says it is NOT human readable the handle still behaves as T
+fn ser_show<T: Serialize + ?Sized>(v: &T, k: usize, t_nhr: Option<&str>) -> String {
+    let (shown, pt) = ser_one(v, k, true);
+    let mut extra: Vec<String> = Vec::new();
+    if let Some(p) = pt {
+        extra.push(format!("passthrough={}", p));
+    }
+    if let Some(t) = t_nhr {
+        extra.push(format!("nhr_same={}", ser_one(v, k, false).0 == t));
+    }
+    format!("{}{{{}}}", shown, extra.join(","))
 }
 
 fn ser_case<T: Serialize + Clone>(v: &T, k: usize) -> String {
-    let t = ser_one(v, k);
+    let t = ser_show(v, k, None);
+    let t_nhr = ser_one(v, k, false).0;
     let a = Arc::new(v.clone());
-    let ar = ser_one(&a, k);
+    let ar = ser_show(&a, k, Some(&t_nhr));
     let u = UniqueArc::new(v.clone());
-    let ur = ser_one(&u, k);
+    let ur = ser_show(&u, k, Some(&t_nhr));
     format!("T={} Arc={} Unique={}", t, ar, ur)
 }
 
@@ -512,12 +538,24 @@ fn bad_events(evs: &[Ev]) -> usize {
 }
 
 /// Observations about one handle-producing deserialisation (`H` = `Arc<T>` or `UniqueArc<T>`).
-fn de_handle<T, H>(input: &V, k: usize, t_res: &Result<T, E>, t_allocs: &[(usize, usize, usize)], into_arc: impl FnOnce(H) -> Arc<T>) -> String
+fn de_handle<T, H>(input: &V, k: usize, t_res: &Result<T, E>, t_allocs: &[(usize, usize, usize)], t_nhr: &str, into_arc: impl Fn(H) -> Arc<T>) -> String
 where
     T: DeserializeOwned + PartialEq + fmt::Debug,
     H: DeserializeOwned,
 {
     let lay = arc_layout::<T>();
+    // with a deserializer that says it is NOT human readable the handle still behaves as T
+    let nhr_same = {
+        let c = Ctl::new_hr(k, false);
+        let r: Result<H, E> = H::deserialize(D { v: input, ctl: &c });
+        let shown = c.show(&r);
+        let val_ok = match (r, t_res) {
+            (Ok(h), Ok(tv)) => *into_arc(h) == *tv,
+            (Err(_), Err(_)) => true,
+            _ => false,
+        };
+        shown == t_nhr && val_ok
+    };
     let c = Ctl::new(k);
     set_recording(true);
     let r: Result<H, E> = H::deserialize(D { v: input, ctl: &c });
@@ -559,8 +597,8 @@ where
             };
             let leaked = allocs.iter().filter(|x| harness::rec(x.0).live).count();
             evs.extend(dev);
-            format!("{}[count={},allocs={},fresh={},eq={}]{{strong={},unique={},others_same={},freed_on_drop={},leaked={},bad_events={}}}",
-                shown, count, arc_here - arc_in_t, fresh, eq, strong, unique, others_same, freed, leaked, bad_events(&evs))
+            format!("{}[count={},allocs={},fresh={},eq={}]{{strong={},unique={},others_same={},freed_on_drop={},leaked={},bad_events={},nhr_same={}}}",
+                shown, count, arc_here - arc_in_t, fresh, eq, strong, unique, others_same, freed, leaked, bad_events(&evs), nhr_same)
         }
         Err(e) => {
             let same_msg = match t_res {
@@ -573,8 +611,8 @@ where
             evs.extend(take_events());
             let leaked = allocs.iter().filter(|x| harness::rec(x.0).live).count();
             let arc_live = allocs.iter().filter(|x| is_arc(x) && harness::rec(x.0).live).count();
-            format!("{}[allocs={}]{{passthrough={},same_msg={},others_same={},arc_blocks_live={},leaked={},bad_events={}}}",
-                shown, arc_here - arc_in_t, passthrough, same_msg, others_same, arc_live, leaked, bad_events(&evs))
+            format!("{}[allocs={}]{{passthrough={},same_msg={},others_same={},arc_blocks_live={},leaked={},bad_events={},nhr_same={}}}",
+                shown, arc_here - arc_in_t, passthrough, same_msg, others_same, arc_live, leaked, bad_events(&evs), nhr_same)
         }
     }
 }
@@ -587,8 +625,13 @@ fn de_case<T: DeserializeOwned + PartialEq + fmt::Debug>(input: &V, k: usize) ->
     let evs = take_events();
     let t_allocs = allocs_of(&evs);
     let t_shown = format!("{}{{passthrough={}}}", c.show(&rt), c.passthrough(&rt));
-    let a = de_handle::<T, Arc<T>>(input, k, &rt, &t_allocs, |h| h);
-    let u = de_handle::<T, UniqueArc<T>>(input, k, &rt, &t_allocs, |h| h.shareable());
+    let t_nhr = {
+        let c = Ctl::new_hr(k, false);
+        let r: Result<T, E> = T::deserialize(D { v: input, ctl: &c });
+        c.show(&r)
+    };
+    let a = de_handle::<T, Arc<T>>(input, k, &rt, &t_allocs, &t_nhr, |h| h);
+    let u = de_handle::<T, UniqueArc<T>>(input, k, &rt, &t_allocs, &t_nhr, |h| h.shareable());
     // T's own value / error is released here (recording is off)
     drop(rt);
     format!("T={} Arc={} Unique={}", t_shown, a, u)
